@@ -30,6 +30,23 @@ type HttpProbe struct {
 	NumPort int    `yaml:"num_port,omitempty"`
 }
 
+// Clone returns a deep copy of the probe (nil for a nil probe).
+func (p *Probe) Clone() *Probe {
+	if p == nil {
+		return nil
+	}
+	c := *p
+	if p.Exec != nil {
+		e := *p.Exec
+		c.Exec = &e
+	}
+	if p.HttpGet != nil {
+		h := *p.HttpGet
+		c.HttpGet = &h
+	}
+	return &c
+}
+
 func (h *HttpProbe) getUrl() (*url.URL, error) {
 	urlStr := ""
 	if h.NumPort != 0 {
